@@ -42,7 +42,7 @@ def plan(tier):
     n = 0
     for cfg in (("MCPlan_4",) if tier == "quick" else ("MCPlan_5", "MCPlan_r6")):
         cases = []
-        r = run_tlc("MCPlan", cfg, on_replay=cases.append, keep_replays=False, timeout=6000, xmx="24g")
+        r = run_tlc("MCPlan", cfg, on_replay=cases.append, keep_replays=False, timeout=6000, xmx="24g", coverage=False)
         if r.violation:
             raise ToolError("the composed front end violates a reference theorem of Plan.tla (%s):\n%s" % (cfg, r.violation[:2500]))
         res = inproc_map("plan", [{"id": i, "line": c["s"]} for i, c in enumerate(cases)], timeout=30)
